@@ -19,6 +19,11 @@ ASSUMPTIONS = [
     "a transmission is 'solicited' iff, since the last packet on the bus, the host completed an IN or PING token carrying the device's current "
     "address (the address register is observed through a debug port), or a data packet with a data PID and correct CRC16 directly after an OUT or "
     "SETUP token for the device; each solicitation is consumed by one transmission; an OUT/SETUP token on its own solicits nothing",
+    "other devices on the bus: the host scripts interleave own traffic (control, bulk OUT and bulk IN on endpoint 1, status IN) with transactions "
+    "addressed to other devices -- OUT/SETUP + DATA0/DATA1 (+ the other device's handshake), IN + the other device's data or NAK + the host's "
+    "handshake, PING, lone OUT tokens, to address 0 after SET_ADDRESS and to neighbouring / random addresses, SOFs in between, preferably right "
+    "after own OUT traffic; the observer grants no solicitation for any of it, so ANY transmission by the device inside a transaction whose token "
+    "was not addressed to it is reported (directed histories directed_foreign + random flavour 'foreign')",
     "request discipline of the transmit-path theorems (txq_env): nothing in flight -> at most one of {handshake request, data request} per "
     "cycle; handshake in flight -> no data request; data packet in flight -> no handshake request, utmi.rx_valid low, stream.valid held during "
     "the payload; no chirp while anything is in flight.  It is NOT proved from the endpoint models; it is checked on every simulated "
@@ -355,13 +360,95 @@ def device_script(rng, mps, prod, flavour):
         else:
             await h.idle(rng.randint(1, 40))
 
+    async def own_out(h):
+        """own bulk OUT traffic: afterwards the last token addressed to this device is an OUT to a bulk OUT endpoint"""
+        pl = [rng.randrange(256) for _ in range(rng.choice([0, 1, mps - 1, mps]))]
+        res = await h.out_txn(1, pl, data_pid=h.own_out_pid)
+        if res == ('hs', PID_ACK):
+            h.own_out_pid = PID_DATA1 if h.own_out_pid == PID_DATA0 else PID_DATA0
+
     async def script(h):
+        h.own_out_pid = PID_DATA0
         await h.idle(rng.randint(2, 6))
-        if flavour == "enum" or rng.random() < 0.5:
+        if flavour in ("enum", "foreign") or rng.random() < 0.5:
             await enumerate_(h)
         for _ in range(rng.randint(6, 14)):
-            await one(h)
+            if flavour == "foreign":
+                # a second (third, ...) device shares the bus: its transactions are interleaved with ours, preferably right
+                # after own OUT / SETUP / IN traffic, with SOFs in between
+                r = rng.random()
+                if r < 0.45: await own_out(h)
+                elif r < 0.6: await one(h)
+                elif r < 0.7:
+                    prod.push([rng.randrange(256) for _ in range(rng.randint(1, mps))])
+                    await h.in_txn(1)
+                for _ in range(rng.randint(1, 3)):
+                    if rng.random() < 0.25:
+                        await h.send_packet(sof_bytes(rng.randrange(2048)))
+                    await foreign_traffic(h, rng, mps)
+            else:
+                await one(h)
+                if rng.random() < 0.15:
+                    await foreign_traffic(h, rng, mps)
             await h.idle(rng.randint(0, 6))
+        await h.idle(PATIENCE + 10)
+    return script
+
+
+def foreign_address(h, rng):
+    """an address that is not the device's current one: address 0 (a freshly attached device being enumerated) once the device
+    has left it, neighbours in every bit, random ones"""
+    cands = [0, 0, h.address ^ 1, h.address ^ 0x40, (h.address + 1) % 128, 0x7F, rng.randrange(128), rng.randrange(128)]
+    cands = [a for a in cands if a != h.address]
+    return rng.choice(cands)
+
+
+async def foreign_traffic(h, rng, mps):
+    kind = rng.choice(["out", "out", "out", "setup", "setup", "in", "in", "in_hs", "ping", "token"])
+    ep = 0 if kind == "setup" else rng.choice([0, 1, 1, 1, 2, rng.randrange(16)])
+    if kind == "setup":
+        pl = [rng.choice([0x80, 0x00, 0x21]), rng.choice([6, 5, 9, 0x20]), rng.randrange(256), rng.randrange(4), 0, 0, rng.choice([0, 8, 18, 64]), 0]
+    else:
+        pl = [rng.randrange(256) for _ in range(rng.choice([0, 1, 3, mps, rng.randint(0, mps)]))]
+    hs = rng.choice([PID_ACK, PID_ACK, PID_NAK, PID_STALL, None])
+    return await h.foreign_txn(kind, foreign_address(h, rng), ep=ep, payload=pl, data_pid=rng.choice([PID_DATA0, PID_DATA1]),
+                               hs=hs, quick=(rng.random() < 0.7))
+
+
+def directed_foreign(prod, mps, set_addr):
+    """Directed history with a second device on the bus (seeded/C20_2): after own bulk OUT traffic, every kind of transaction
+    addressed elsewhere -- OUT + DATA0/DATA1, SETUP + DATA0 to address 0 (a fresh device being enumerated), IN answered by the
+    other device's data / NAK, PING, a lone OUT token -- with SOFs and own OUT / IN / SETUP traffic in between."""
+    async def script(h):
+        await h.idle(4)
+        if set_addr:
+            await h.set_address(5)
+        other = 9
+        await h.out_txn(1, [1, 2, 3], data_pid=PID_DATA0)                                          # own OUT: ACK
+        await h.foreign_txn("out", other, ep=1, payload=[4, 5, 6], data_pid=PID_DATA1, hs=None, quick=False)
+        await h.send_packet(sof_bytes(0x123))
+        await h.out_txn(1, [7], data_pid=PID_DATA1)                                                # own OUT again
+        await h.foreign_txn("out", other, ep=1, payload=[8, 9], data_pid=PID_DATA1, hs=PID_ACK)    # toggle the device would skip
+        await h.out_txn(1, [10], data_pid=PID_DATA0)
+        await h.foreign_txn("out", other, ep=1, payload=[11], data_pid=PID_DATA1, hs=PID_NAK)      # toggle the device would accept
+        await h.out_txn(1, list(range(mps)), data_pid=PID_DATA1)
+        await h.foreign_txn("setup", 0 if set_addr else 0x2A, ep=0, payload=[0x80, 6, 0, 1, 0, 0, 8, 0], data_pid=PID_DATA0, hs=PID_ACK)
+        await h.out_txn(1, [12], data_pid=PID_DATA0)
+        await h.foreign_txn("in", other, ep=1, payload=[0x55, 0xAA], data_pid=PID_DATA0, hs=PID_ACK)  # the other device's data follows its token
+        await h.send_packet(sof_bytes(0x124))
+        await h.out_txn(1, [13], data_pid=PID_DATA1)
+        await h.foreign_txn("in_hs", other, ep=2, hs=PID_NAK)
+        await h.foreign_txn("ping", other, ep=1, hs=PID_ACK)
+        await h.foreign_txn("token", other, ep=1)
+        prod.push([0x31, 0x32, 0x33])
+        await h.idle(8)
+        await h.in_txn(1)                                                                          # own IN: data
+        await h.foreign_txn("in", other, ep=1, payload=[], data_pid=PID_DATA1, hs=PID_ACK)
+        await h.foreign_txn("out", 0x7F, ep=1, payload=[14], data_pid=PID_DATA0, hs=PID_ACK)
+        r = await h.setup(0x80, 6, 0x0100, 0, 8)                                                   # own SETUP: ACK
+        await h.foreign_txn("out", other, ep=0, payload=[], data_pid=PID_DATA1, hs=PID_ACK)        # looks like a status stage, not ours
+        await h.foreign_txn("in", other, ep=0, payload=[18, 1], data_pid=PID_DATA1, hs=PID_ACK)
+        await h.in_txn(0)                                                                          # our data stage goes on
         await h.idle(PATIENCE + 10)
     return script
 
@@ -370,13 +457,20 @@ def device_traces(t, rng, tier):
     mps = t.params["mps"]
     n = 8 if tier == "quick" else 16
     out = []
+    # directed histories with other devices on the bus, shortest first (so that a violation is reported on a short trace)
+    for set_addr in (True, False):
+        sub = random.Random(rng.getrandbits(32))
+        prod = StreamProducer(sub)
+        h = HostSim(t.build, sub, const=dict(line_state=1, connect=1, status=0x1234), ready_p=1.0, timeout=PATIENCE + 8, gap=3, in_stream=prod)
+        h.run(directed_foreign(prod, mps, set_addr))
+        out.append(h.trace)
     for k in range(n):
         sub = random.Random(rng.getrandbits(32))
         prod = StreamProducer(sub, gap_p=sub.choice([0.0, 0.3]))
         h = HostSim(t.build, sub, const=dict(line_state=1, connect=1, status=sub.randrange(1 << 16)),
                     ready_p=sub.choice([1.0, 1.0, 0.6, 0.3]), first_valid=(k % 4 == 1), byte_gap=sub.choice([0, 0, 1, (0, 3)]),
                     timeout=PATIENCE + 8, gap=sub.choice([2, 3, 6]), in_stream=prod, out_ready_p=sub.choice([1.0, 0.5, 0.1]))
-        h.run(device_script(sub, mps, prod, "enum" if k % 3 == 0 else "mixed"))
+        h.run(device_script(sub, mps, prod, "enum" if k % 4 == 0 else ("foreign" if k % 4 in (1, 3) else "mixed")))
         out.append(h.trace)
     # illegal-host traces: a data packet without a token (the device ACKs it as if it belonged to its previous OUT
     # token, see findings/C20-note-stray-data-packet-acked.json) / the host talks over the device's answer; the observer
